@@ -202,4 +202,78 @@ theorem outs_exc (t : Tree) (x : Val) (h : x.isExc = true) : outs t x = [x] := b
   · intro t ts x ih1 ih2 h
     simp [outsSeq, ih2 h, ih1 x h]
 
+/-! ### when the denotation is a function -/
+
+mutual
+/-- no fail-fast ensemble, no batched worker whose `call` may fail as a whole, and `switch` returns
+    a member index: then the outcome of a request is a function of its input -/
+def Det : Tree → Prop
+  | .worker w => w.bs = 0 ∨ w.berrs = []
+  | .seq ts => Dets ts
+  | .ens ts ff => ff = false ∧ Dets ts
+  | .switch ts sel => (∀ x, sel x < ts.length) ∧ Dets ts
+def Dets : List Tree → Prop
+  | [] => True
+  | t :: ts => Det t ∧ Dets ts
+end
+
+theorem choices_singletons (l : List Val) : choices (l.map (fun r => [r])) = [l] := by
+  induction l with
+  | nil => rfl
+  | cons a l ih => simp [choices, ih]
+
+mutual
+theorem outs_det : (t : Tree) → Det t → ∀ x, ∃ r, outs t x = [r]
+  | .worker w, hd, x => by
+    simp only [Det] at hd
+    simp only [outs, wouts]
+    split
+    · exact ⟨_, rfl⟩
+    · split
+      · exact ⟨_, rfl⟩
+      · split
+        · exact ⟨_, rfl⟩
+        · rename_i hbs
+          rcases hd with hd | hd
+          · exact absurd hd hbs
+          · exact ⟨_, by rw [hd]⟩
+  | .seq ts, hd, x => by
+    simp only [Det] at hd; simp only [outs]; exact outsSeq_det ts hd x
+  | .ens ts ff, hd, x => by
+    simp only [Det] at hd
+    simp only [outs]
+    split
+    · exact ⟨_, rfl⟩
+    · obtain ⟨l, hl⟩ := outsEach_det ts hd.2 x
+      rw [hd.1, hl]
+      simp [ensOuts, choices_singletons]
+  | .switch ts sel, hd, x => by
+    simp only [Det] at hd
+    simp only [outs]
+    split
+    · exact ⟨_, rfl⟩
+    · exact outsNth_det ts hd.2 (sel x) (hd.1 x) x
+theorem outsSeq_det : (ts : List Tree) → Dets ts → ∀ x, ∃ r, outsSeq ts x = [r]
+  | [], _, x => ⟨x, rfl⟩
+  | t :: ts, hd, x => by
+    simp only [Dets] at hd
+    obtain ⟨r, hr⟩ := outs_det t hd.1 x
+    obtain ⟨r', hr'⟩ := outsSeq_det ts hd.2 r
+    exact ⟨r', by simp [outsSeq, hr, hr']⟩
+theorem outsEach_det : (ts : List Tree) → Dets ts → ∀ x, ∃ l : List Val, outsEach ts x = l.map (fun r => [r])
+  | [], _, _ => ⟨[], rfl⟩
+  | t :: ts, hd, x => by
+    simp only [Dets] at hd
+    obtain ⟨r, hr⟩ := outs_det t hd.1 x
+    obtain ⟨l, hl⟩ := outsEach_det ts hd.2 x
+    exact ⟨r :: l, by simp [outsEach, hr, hl]⟩
+theorem outsNth_det : (ts : List Tree) → Dets ts → ∀ i, i < ts.length → ∀ x, ∃ r, outsNth ts i x = [r]
+  | [], _, i, hi, _ => absurd hi (by simp)
+  | t :: ts, hd, i, hi, x => by
+    simp only [Dets] at hd
+    cases i with
+    | zero => simp only [outsNth]; exact outs_det t hd.1 x
+    | succ i => simp only [outsNth]; exact outsNth_det ts hd.2 i (by simpa using hi) x
+end
+
 end Servlet
